@@ -203,7 +203,8 @@ func C02Scenarios(tier string) []*h.Scenario {
 				ev = append(ev, evBurst(g, 2, 1000), evClearAllPods(g), evSkipSettle(), evExtraTick(1), evRestart())
 				return ev
 			},
-			FaultOps: map[string]bool{sim.OpSetDesired: true, sim.OpAttach: true, sim.OpCreateFleet: true},
+			// a failing DescribeAutoScalingGroups makes RunOnce rebuild the provider mid-window
+			FaultOps: map[string]bool{sim.OpSetDesired: true, sim.OpAttach: true, sim.OpCreateFleet: true, sim.OpDescribeASG: true},
 		}
 		return s
 	}
@@ -241,6 +242,6 @@ func init() {
 			return out
 		},
 		Assumptions: commonAssumptions,
-		Alphabet:    []string{"pod-finish(i)", "cordon/uncordon(i)", "force-taint(i)", "ext-taint(i, now-5q)", "burst", "clear-pods", "skip-settle", "extra-tick(1q)", "restart", "fail at SetDesiredCapacity / AttachInstances / CreateFleet"},
+		Alphabet:    []string{"pod-finish(i)", "cordon/uncordon(i)", "force-taint(i)", "ext-taint(i, now-5q)", "burst", "clear-pods", "skip-settle", "extra-tick(1q)", "restart", "fail at SetDesiredCapacity / AttachInstances / CreateFleet / DescribeAutoScalingGroups (provider rebuild)"},
 	})
 }
